@@ -61,8 +61,8 @@ class _TRSTractList:
             into.extend(iterable)
             return into
         for elem in iterable:
-            if isinstance(elem, cls._ok_individuals):
-                into.append(cls._verify_individual(elem))
+            # Raises TypeError for any unacceptable element.
+            into.append(cls._verify_individual(elem))
         return into
 
     @classmethod
@@ -79,8 +79,7 @@ class _TRSTractList:
         return obj
 
     def __setitem__(self, index, value):
-        self._verify_individual(value)
-        self._elements[index] = value
+        self._elements[index] = self._verify_individual(value)
 
     def __getitem__(self, item):
         return self._elements[item]
@@ -781,7 +780,7 @@ class _TRSTractList:
         # each current TractList/TRSList object.
         dct_2 = {}
         for k, tlist in dct.items():
-            dct_2[k] = tlist.group_nested(attribute=attribute, into=None)
+            dct_2[k] = tlist.group_by_nested(attribute=attribute, into=None)
 
         # Unpack dct_2 into the existing dict (`into`), sort, and return.
         dct = add_to_existing_dict(dct_2, into)
@@ -1055,6 +1054,11 @@ class _TRSTractList:
             elif isinstance(obj, cls._ok_iterables):
                 for obj_deeper in obj:
                     into.append(obj_deeper)
+            elif isinstance(obj, str):
+                # A str that is not itself acceptable cannot be unpacked
+                # any further (iterating it only yields more strings).
+                raise TypeError(
+                    f"{cls._typeerror_msg} Cannot accept {type(obj)!r}.")
             else:
                 # Assume it's another list-like object.
                 for obj_deeper in obj:
